@@ -7,6 +7,7 @@ import (
 	"math"
 	"math/big"
 	"sync/atomic"
+	"time"
 
 	"github.com/iotaledger/iota.go/consts"
 	"github.com/iotaledger/iota.go/trinary"
@@ -150,6 +151,13 @@ func c12Configs(th bool) []c12config {
 		add(l, 4000)
 		add(l, math.MaxUint64/uint64(l))
 		add(l, math.MaxUint64/uint64(l)-1)
+	}
+	// message lengths that divide 2^64-1 = 3*5*17*257*641*65537*6700417: length*target can be exactly 2^64-1, the largest
+	// legal product (length*target+1 does not fit 64 bits any more)
+	for _, l := range []int{15, 17, 51, 85, 255, 257, 641, 771} {
+		add(l, math.MaxUint64/uint64(l))
+		add(l, math.MaxUint64/uint64(l)-1)
+		add(l, 3)
 	}
 	add(21, 4000)
 	return out
@@ -521,6 +529,63 @@ func runC12(c *core.Ctx) {
 			}
 		}
 	})
+	// large data (digest computed over megabytes; chunked hashing must hash every byte): sizes at and around multiples of 1 MiB
+	for _, sz := range []int{1 << 20, 1<<20 + 1, 2 << 20, 2<<20 - 1, 3 << 20, 4 << 20, 1<<24 + 5} {
+		data := make([]byte, sz)
+		for i := 0; i < len(data); i += 4093 {
+			data[i] = byte(i>>12) + 1
+		}
+		data[len(data)-1] = 0x77
+		var nonce uint64
+		var err error
+		p := core.Catch(func() { nonce, err = powv2.New(2).Mine(context.Background(), data, 1) })
+		c.Eval(1)
+		nontriv.Add(1)
+		cas := map[string]interface{}{"data_len": sz, "target": 1}
+		if p != nil || err != nil {
+			c.Violate("C12/large-data/error", fmt.Sprintf("%d bytes of data: %v %v", sz, p, err), cas, "", nil)
+			continue
+		}
+		if sc := refScoreV2FromHash(refPowHashV2(data, nonce), len(data)+8); sc < 1 {
+			c.Violate("C12/large-data/unsound", fmt.Sprintf("%d bytes of data, target 1: Mine returned nonce %d whose score is %d", sz, nonce, sc), cas, "", nil)
+		}
+	}
+	// one Worker, the same data again after a cancelled call with a higher target: the second call is a call like any other
+	// (sound, and with one worker no earlier block holds a nonce that qualifies with margin)
+	for _, data := range [][]byte{[]byte("retry after cancel"), {1, 2, 3}} {
+		w := powv2.New(1)
+		ctx, cancel := context.WithTimeout(context.Background(), 30*time.Millisecond)
+		w.Mine(ctx, data, 1<<50)
+		cancel()
+		for _, t := range []uint64{50, 7} {
+			var nonce uint64
+			var err error
+			p := core.Catch(func() { nonce, err = w.Mine(context.Background(), data, t) })
+			c.Eval(1)
+			nontriv.Add(1)
+			cas := map[string]interface{}{"data": fmt.Sprintf("%x", data), "target": t, "history": "Mine(target 2^50) cancelled by a 30ms timeout, then this call on the same Worker"}
+			if p != nil || err != nil {
+				c.Violate("C12/reuse-after-cancel/error", fmt.Sprintf("%v %v", p, err), cas, "", nil)
+				continue
+			}
+			msgLen := len(data) + 8
+			lx := new(big.Int).Mul(big.NewInt(int64(msgLen)), new(big.Int).SetUint64(t))
+			if refScoreV2FromHash(refPowHashV2(data, nonce), msgLen) < t {
+				c.Violate("C12/reuse-after-cancel/unsound", fmt.Sprintf("nonce %d scores below the target %d", nonce, t), cas, "", nil)
+				continue
+			}
+			limit := nonce / 64 * 64
+			if limit > 1<<19 {
+				limit = 1 << 19 // the reference hashes every earlier nonce: bounded
+			}
+			for n := uint64(0); n < limit; n++ {
+				if refDifficulty(refPowHashV2(data, n)).Cmp(lx) > 0 {
+					c.Violate("C12/reuse-after-cancel/passed-over", fmt.Sprintf("single worker returned nonce %d (block %d) although nonce %d in block %d has difficulty strictly above length*target", nonce, nonce/64, n, n/64), cas, "", nil)
+					break
+				}
+			}
+		}
+	}
 	// every way a context can end x (unattainable | easy) target x worker counts: whatever comes back without an error
 	// must meet the target; with the unattainable target that means an error must come back
 	for _, k := range powCtxKinds() {
